@@ -31,7 +31,7 @@ func Targets() []*Target {
 		targets = append(targets, multipartyTargets()...)
 		targets = append(targets, mpSchemeTargets()...)
 		targets = append(targets, ringSwitchTargets()...)
-		targets = append(targets, ringPackingTarget(), blindrotTarget())
+		targets = append(targets, ringPackingTarget(), blindrotTarget(), bignumPolynomialTarget())
 	})
 	return targets
 }
